@@ -55,3 +55,12 @@ void __CPROVER_file_local_alg_sha512_c_SHA512_Transform(uint64_t *state, const u
   for (int i = 0; i < 8; i++) { state[i] = nondet_u64(); vf_state64[i] = state[i]; }
 }
 #endif
+
+#ifdef T_SHA1L
+uint32_t vf_state32[8];
+void __CPROVER_file_local_alg_sha1_c_sha1_do_transform(uint32_t state[5], const uint8_t buffer[64])
+{
+  logblk(buffer);
+  for (int i = 0; i < 5; i++) { state[i] = nondet_u32(); vf_state32[i] = state[i]; }
+}
+#endif
